@@ -36,6 +36,10 @@ def run(ctx):
     header_rule15(ctx)
     typestate(ctx)
     mustcall(ctx)
+    # a failed value must not disturb the values written after it: the serializer's buffer pools only ever receive
+    # cleared buffers, also on the failure paths (shared with C14)
+    from .c14 import pool_rule
+    pool_rule(ctx)
 
 
 def failed_rule(ctx):
